@@ -271,6 +271,16 @@ class KeyBinding:
             k = jax.random.fold_in(base, int(solve.num(self.res.value(t.arg(1)))))
         elif z3.is_app(t) and t.num_args() == 1 and d == "kseed":
             k = jax.random.key(int(solve.num(self.res.value(t.arg(0)))) & 0xFFFFFFFF)
+        elif z3.is_app(t) and d in ("krbg", "kwrap"):
+            # keys rebuilt from raw words: a word that is `kdata_w(k')` takes the real word of the concrete key chosen for k' (the model's integer for it is
+            # arbitrary: key data is uninterpreted), any other word the model's value
+            words = []
+            for a in t.children():
+                if z3.is_app(a) and a.decl().name().startswith("kdata") and a.num_args() == 1:
+                    words.append(int(np.asarray(jax.random.key_data(self.concrete(a.arg(0)))).reshape(-1)[int(a.decl().name()[5:])]))
+                else:
+                    words.append(int(solve.num(self.res.value(a))) & 0xFFFFFFFF)
+            k = jax.random.wrap_key_data(jnp.asarray(words, jnp.uint32), impl="rbg" if d == "krbg" else None)
         else:
             self.n += 1
             k = jax.random.key(self.seed + self.n)
